@@ -10,6 +10,9 @@ IMPORTS = ("From Coq Require Import List NArith.\nFrom HV Require Import Sim.Mod
 
 
 PROBE_TIMEOUT_MS = 300000   # a warmed cache answers in ~20 s; a cold one needs many minutes
+if vlib.REPO != "/repo":
+    # alternative checkout (seeded-change run): its generated crates are compiled from cold
+    PROBE_TIMEOUT_MS = 2400 * 1000
 
 
 def build(ctx):
